@@ -234,6 +234,14 @@ def run_write(p: dict, stmts, workdir: str):
         elif out_kind == "buffered-writer":
             raw = io.BytesIO()
             out = io.BufferedWriter(raw, buffer_size=16)
+        elif out_kind == "gzip-file":
+            out = gzip.open(path, "wb")
+        elif out_kind == "socket-makefile":
+            import socket  # noqa: PLC0415
+
+            sa, sb = socket.socketpair()
+            sb.setsockopt(socket.SOL_SOCKET, socket.SO_RCVBUF, 1 << 18)      # the workload is far smaller: the writer never blocks
+            out = sa.makefile("wb", buffering=16)
         else:
             out = io.BytesIO()
         data_in = _input(p, stmts, integ)
@@ -272,6 +280,22 @@ def run_write(p: dict, stmts, workdir: str):
         elif out_kind == "buffered-writer":
             out.flush()
             got = raw.getvalue()
+        elif out_kind == "gzip-file":
+            out.close()
+            with gzip.open(path, "rb") as f:
+                got = f.read()
+            os.unlink(path)
+        elif out_kind == "socket-makefile":
+            out.close()
+            sa.close()
+            chunks = []
+            while True:
+                c = sb.recv(65536)
+                if not c:
+                    break
+                chunks.append(c)
+            sb.close()
+            got = b"".join(chunks)
         else:
             got = out.getvalue()
         return "ok", got
